@@ -118,6 +118,12 @@ void h07c(void) {
         OBLIGE(z->header_only == (r.detached != 0), "C07/lead-detached-flag-stored");
         for(int i = 0; i < 64; i++) if(i < r.ds)
             OBLIGE((unsigned char)z->header_digest[i] == fb[r.digest_loc + i], "C07/lead-digest-bytes-stored");
+        /* LeadInv (DESIGN 2.4): what the header stage (C06/C13/C03 harnesses) starts from */
+        size_t hs = r.lead_size > MINLEAD ? r.lead_size : MINLEAD;
+        OBLIGE(z->header_size == hs && __CPROVER_OBJECT_SIZE(z->header) == hs && z->lead_string == z->header, "C07/leadinv-buffer-is-the-bytes-read-so-far");
+        for(size_t i = 0; i < FCAP; i++) if(i < hs)
+            OBLIGE((unsigned char)z->header[i] == fb[i], "C07/leadinv-buffer-holds-the-file-bytes");
+        OBLIGE(vf_pos[0] == (long)hs, "C07/leadinv-stream-position-after-the-bytes-read");
         WITNESS("h07c-accept");
     } else {
         WITNESS("h07c-reject");
